@@ -18,13 +18,15 @@ ACT_FOLDER = "game/agent/actions/folder.py"
 
 # the methods whose logic the model transcribes (docstrings and sys_log calls removed before comparison)
 TRANSCRIBED = {
-    ("FileSystem", FS): ["__init__", "create_folder", "delete_folder", "get_folder", "create_file", "get_file", "delete_file",
-                         "restore_folder", "restore_file", "access_file", "pre_timestep", "apply_timestep", "describe_state",
+    ("FileSystem", FS): ["__init__", "setup_for_episode", "create_folder", "delete_folder", "create_file", "get_file",
+                         "restore_folder", "access_file", "pre_timestep", "apply_timestep", "describe_state",
                          "copy_file", "move_file", "delete_file_by_id", "delete_folder_by_id", "get_folder_by_id", "scan"],
     # restore_file and add_file are tied semantically instead (extract/fsxlate.py, C15_gen_restore_file / C15_gen_add_file)
-    ("Folder", FOLDER): ["get_file", "get_file_by_id", "remove_file", "remove_file_by_id", "pre_timestep", "_scan_timestep", "scan", "repair", "corrupt", "remove_file_by_name", "remove_all_files",
-                         "restore", "delete", "_restoring_timestep", "apply_timestep", "describe_state"],
-    ("File", FILE): ["restore", "delete", "scan", "repair", "corrupt", "pre_timestep"],
+    ("Folder", FOLDER): ["get_file_by_id", "remove_file_by_id", "pre_timestep", "_scan_timestep", "scan", "repair", "corrupt", "remove_all_files",
+                         "apply_timestep", "describe_state"],
+    # File.restore/delete/scan/repair/corrupt/check_hash and Folder.restore/delete/check_hash are translated onto records that
+    # carry health (extract/fsxlate.py, C15_gen_file_methods / C15_gen_folder_methods)
+    ("File", FILE): ["pre_timestep"],
 }
 GUARDED = {("Folder", FOLDER): ["scan", "repair", "corrupt", "check_hash"], ("File", FILE): ["scan", "repair", "corrupt", "check_hash"]}
 
@@ -197,6 +199,65 @@ def _actions(rel: str) -> List[Tuple[str, List[str], List[str]]]:
     return out
 
 
+def _health_table(classes) -> Tuple[List[Tuple[str, str, str]], List[Tuple[str, str]], List[str]]:
+    """Where the file-system classes look at health.
+    branches: (method, test, statements the test controls — if-body `|` else-body) for every `if` whose test mentions
+              `health_status`;
+    reads:    (method, statement) for every other statement that READS health_status (not a plain assignment to it);
+    structural: the violations — a health-dependent branch that controls anything but assignments to `self.health_status` /
+              `self.visible_health_status` (and logging): a `return`, an assignment to `self.deleted`, a call, a nested test …
+              Structure must not depend on health: this list has to stay empty."""
+    branches, reads, structural = [], [], []
+
+    def health_only(st: ast.stmt) -> bool:
+        if _is_syslog(st) or isinstance(st, ast.Pass):
+            return True
+        if isinstance(st, ast.Assign) and len(st.targets) == 1:
+            return ast.unparse(st.targets[0]) in ("self.health_status", "self.visible_health_status")
+        return False
+
+    def walk(body: List[ast.stmt], where: str):
+        for st in body:
+            if isinstance(st, ast.Expr) and isinstance(st.value, ast.Constant):
+                continue
+            if isinstance(st, ast.If):
+                if "health_status" in ast.unparse(st.test):
+                    ctl = [x for x in st.body if not _is_syslog(x)]
+                    alt = [x for x in st.orelse if not _is_syslog(x)]
+                    branches.append((where, ast.unparse(st.test),
+                                     "; ".join(ast.unparse(x) for x in ctl) + (" | " + "; ".join(ast.unparse(x) for x in alt) if alt else "")))
+                    for x in ctl + alt:
+                        if not health_only(x):
+                            structural.append(f"{where}: `{ast.unparse(st.test)}` controls `{ast.unparse(x).splitlines()[0]}`")
+                    continue
+                walk(st.body, where)
+                walk(st.orelse, where)
+                continue
+            if isinstance(st, (ast.For, ast.While, ast.With, ast.Try)):
+                if isinstance(st, ast.For) and "health_status" in ast.unparse(st.iter):
+                    reads.append((where, "for … in " + ast.unparse(st.iter)))
+                for field in ("body", "orelse", "finalbody"):
+                    walk(getattr(st, field, []) or [], where)
+                for h in getattr(st, "handlers", []):
+                    walk(h.body, where)
+                continue
+            if isinstance(st, (ast.FunctionDef, ast.ClassDef)):
+                continue
+            txt = ast.unparse(st)
+            if "health_status" in txt and not _is_syslog(st):
+                plain = (isinstance(st, ast.Assign) and len(st.targets) == 1
+                         and ast.unparse(st.targets[0]) in ("self.health_status", "self.visible_health_status")
+                         and "health_status" not in ast.unparse(st.value).replace("FileSystemItemHealthStatus", "").replace("self.health_status", "") )
+                if not plain:
+                    reads.append((where, txt.replace("\n", " ")))
+
+    for c in classes:
+        for fn in c.body:
+            if isinstance(fn, ast.FunctionDef):
+                walk(fn.body, f"{c.name}.{fn.name}")
+    return branches, reads, structural
+
+
 def _arity(text: str) -> int:
     ks = [int(k) for k in re.findall(r"request\[(\d+)\]", text)]
     return max(ks) + 1 if ks else 0
@@ -331,11 +392,31 @@ def emit() -> str:
     L.append("/-- every method and property of FileSystem, Folder, File, FileSystemItemABC, in source order -/")
     L.append("def methodInventory : List String := [" + ", ".join(lean_str(m) for m in inv) + "]")
     tied = [f"{cn}.{m}" for (cn, rel), ms in TRANSCRIBED.items() for m in ms]          # textual snapshot
-    tied += ["Folder.restore_file", "Folder.add_file"]                                   # translated (extract/fsxlate.py)
-    tied += [f"{cn}.{m}" for (cn, rel), ms in GUARDED.items() for m in ms if m == "check_hash"]  # guard table
+    from harness.extract.fsxlate import TRANSLATED
+    tied += TRANSLATED                                                                   # translated (extract/fsxlate.py)
     tied += ["FileSystem._init_request_manager", "Folder._init_request_manager", "FileSystemItemABC._init_request_manager"]
     L.append("/-- the methods some obligation reads: textual snapshot, statement translation, guard table, request trees -/")
     L.append("def tiedMethods : List String := [" + ", ".join(lean_str(m) for m in tied) + "]")
+
+    # the health enum
+    he = class_def(it_t, "FileSystemItemHealthStatus")
+    members = [(st.targets[0].id, st.value.value) for st in he.body if isinstance(st, ast.Assign) and isinstance(st.value, ast.Constant)]
+    L.append("def healthMembers : List (String × Nat) := [" + ", ".join(f"({lean_str(a)}, {b})" for a, b in members) + "]")
+    L.append(f"def healthDefault : String := {lean_str(str(_field_default(it_c, 'health_status')))}")
+    L.append(f"def visibleHealthDefault : String := {lean_str(str(_field_default(it_c, 'visible_health_status')))}")
+
+    # where health is looked at
+    hb, hr, hs = _health_table((fs_c, fo_c, fi_c, it_c))
+    L.append("/-- every `if` of the four classes whose test mentions health_status: (method, test, controlled statements) -/")
+    L.append("def healthBranches : List (String × String × String) := [")
+    L.append(",\n".join(f"  ({lean_str(a)}, {lean_str(b)}, {lean_str(c)})" for a, b, c in hb))
+    L.append("]")
+    L.append("/-- every other statement that reads health_status -/")
+    L.append("def healthReads : List (String × String) := [")
+    L.append(",\n".join(f"  ({lean_str(a)}, {lean_str(b)})" for a, b in hr))
+    L.append("]")
+    L.append("/-- health-dependent branches that control anything but health assignments (must be empty) -/")
+    L.append("def healthControlsStructure : List String := [" + ", ".join(lean_str(x) for x in hs) + "]")
 
     # action templates
     acts = _actions(ACT_FILE) + _actions(ACT_FOLDER)
